@@ -177,7 +177,7 @@ let suite_cfgsim (line : string) : string =
       | "CL" ->
           let i = ni t in let j = ni t in
           (match banks.(i), banks.(j) with
-           | Some src, Some _ -> on_bank j (fun dst -> M.ix_clone_emode src dst)
+           | Some src, Some _ -> on_bank j (fun dst -> M.ix_clone_emode !caps src dst)
            | _ -> "ABSENT")
       | "GC" ->
           let oi = opt t nz in let om = opt t nz in
